@@ -336,7 +336,10 @@ func cmdCheck(args []string) int {
 		replayed := false
 		if o != nil {
 			fmt.Fprintf(&b, "obligation: %s\nkind: %s\nfunction: %s\nposition: %s\nstatus: %s (solver %s, %.2fs)\n", o.Name, o.Kind, o.Fn, o.Pos, o.Status, o.Solver, o.Seconds)
-			if o.Status == "sat" {
+			if o.Status == "sat" && o.Kind == "regeneration" {
+				fmt.Fprintf(&b, "\nthe repository's generator was run on the checked-in sources:\n%s\n", truncate(o.Model, 20000))
+				replayed = true
+			} else if o.Status == "sat" {
 				fmt.Fprintf(&b, "\nverifier counterexample (model of the pre-state of %s):\n%s\n", o.Fn, truncate(o.Model, 20000))
 				if w != nil && o.ReplaySrc != "" {
 					ok, txt := (&replayPlan{pkgDir: w.PkgByPath[modPath].Dir, pkgPath: modPath, src: o.ReplaySrc}).run(w)
@@ -568,6 +571,7 @@ func (w *World) extraObligations(run *checkRun) {
 		}
 	case "C20":
 		w.stringerObligations(run)
+		w.regenObligation(run)
 	case "C03":
 		w.routerObligations(run)
 	case "C16":
